@@ -376,10 +376,11 @@ class Expander:
         for st in stmts:
             self.env_at[id(st)] = dict(env)
             env = self._stmt(st, env)
-            # `if c: continue` -- the rest of this block runs only if not c (the same as putting the rest into an else-branch)
+            # `if c: continue` / `if c: return ...` -- the rest of this block runs only if not c (the same as putting the rest
+            # into an else-branch); an early `raise` is an error exit and does not condition the normal path
             if isinstance(st, ast.If):
-                c1 = bool(st.body) and isinstance(st.body[-1], ast.Continue)
-                c2 = bool(st.orelse) and isinstance(st.orelse[-1], ast.Continue)
+                c1 = bool(st.body) and isinstance(st.body[-1], (ast.Continue, ast.Return))
+                c2 = bool(st.orelse) and isinstance(st.orelse[-1], (ast.Continue, ast.Return))
                 if c1 != c2:
                     g = self._tr(st.test)
                     self.guard_stack.append(T("not", None, [g]) if c1 else g)
